@@ -249,6 +249,23 @@ def strings_contains(I, args, ins):
     s, p = args
     if isinstance(s, str) and isinstance(p, str):
         return p in s
+    if isinstance(p, str) and len(p) == 1 and p in '#&=;?':
+        # structural: only concrete text and raw symbolic bytes can contribute a reserved character;
+        # escaped texts and base64/hex texts cannot
+        from .httpstubs import _atoms
+        conds = []
+        for a in _atoms(s):
+            if a[0] == 'c' and a[1] == p:
+                return True
+            if a[0] == 'b':
+                conds.append(a[1] == ord(p))
+            if a[0] == 'o':
+                t = str(a[1])
+                g = I.ctx.ghost
+                if t in g.get('string_tag', {}) or t in g.get('b64dec', {}) or t in g.get('hex', {}):
+                    continue
+                conds.append(z3.Contains(a[1], z3.StringVal(p)))
+        return b_or(*conds) if conds else False
     return z3.Contains(zstr(s), zstr(p))
 
 
